@@ -329,6 +329,24 @@ func cmdCheck(args []string) int {
 			}
 		}
 	}
+	// covers: a call site reachable before a contract is applied must stay reachable after it
+	// (otherwise the callee's contract is contradictory there and everything after it is vacuous)
+	for _, u := range units {
+		res := map[string]string{}
+		for _, o := range u.Obls {
+			if o.ExpectSat {
+				res[o.Name] = o.Result
+			}
+		}
+		for _, o := range u.Obls {
+			if o.ExpectSat && strings.HasSuffix(o.Name, "/before") && o.Result == "sat" {
+				if res[strings.TrimSuffix(o.Name, "/before")+"/after"] == "unsat" {
+					fmt.Fprintf(os.Stderr, "BROKEN: vacuous after call: %s is reachable but the callee's contract makes the continuation unsatisfiable\n", strings.TrimSuffix(o.Name, "/before"))
+					broken = true
+				}
+			}
+		}
+	}
 	// covers: at least one reachable return per unit
 	for _, u := range units {
 		nret, reach := 0, 0
